@@ -27,6 +27,8 @@ struct FileCases {
     refs: Vec<(usize, String)>,
     /// (line, token index in line)
     nums: Vec<(usize, usize)>,
+    /// line range of the BDL text inside a .ctehexml (whole file for .cte)
+    bdl_range: (usize, usize),
 }
 
 const NUM_REPL: [&str; 5] = ["abc", "1e39", "-1", "99999999", "0"];
@@ -78,6 +80,7 @@ impl FileCases {
         let crlf = text.contains("\r\n");
         let lines: Vec<String> = text.replace("\r\n", "\n").split('\n').map(|s| s.to_string()).collect();
         let (mut blocks, mut refs) = (vec![], vec![]);
+        let mut bdl_range = (0, lines.len());
         if fmt == Fmt::Ctehexml || fmt == Fmt::Cte {
             let (a, b) = if fmt == Fmt::Ctehexml {
                 let a = lines.iter().position(|l| l.contains("<EntradaGraficaLIDER>")).unwrap_or(0);
@@ -86,6 +89,7 @@ impl FileCases {
             } else {
                 (0, lines.len())
             };
+            bdl_range = (a, b);
             let sub = lines[a..b].join("\n");
             let lx = bdl::lex(&sub);
             for bl in &lx.blocks {
@@ -117,7 +121,7 @@ impl FileCases {
                 nums.push((i, t));
             }
         }
-        FileCases { path: path.to_string(), fmt, lines, crlf, blocks, refs, nums }
+        FileCases { path: path.to_string(), fmt, lines, crlf, blocks, refs, nums, bdl_range }
     }
 
     fn n_cases(&self) -> u64 {
@@ -300,7 +304,34 @@ pub fn run(ctx: &Ctx) -> i32 {
     let core_files: Vec<usize> = vec![smallest(Fmt::Ctehexml), smallest(Fmt::Cte), smallest(Fmt::Kyg), smallest(Fmt::Tbl)];
     let stride = 1499u64;
     let mut idxs: Vec<u64> = vec![];
+    // VERIF_C19_PART=xml: only the XML part (outside the BDL text) of the .ctehexml files, all edits (systems sections)
+    let part = std::env::var("VERIF_C19_PART").unwrap_or_default();
+    if part == "xml" {
+        for (fi, f) in st.files.iter().enumerate() {
+            if f.fmt != Fmt::Ctehexml {
+                continue;
+            }
+            let n = f.lines.len() as u64;
+            let outside = |l: usize| l < f.bdl_range.0 || l >= f.bdl_range.1;
+            for l in 0..f.lines.len() {
+                if outside(l) {
+                    for k in 0..3u64 {
+                        idxs.push(st.offsets[fi] + k * n + l as u64);
+                    }
+                }
+            }
+            let base = st.offsets[fi] + 3 * n + f.blocks.len() as u64 + f.refs.len() as u64;
+            for (t, (l, _)) in f.nums.iter().enumerate() {
+                if outside(*l) {
+                    for r in 0..NUM_REPL.len() as u64 {
+                        idxs.push(base + t as u64 * NUM_REPL.len() as u64 + r);
+                    }
+                }
+            }
+        }
+    }
     match ctx.tier {
+        _ if part == "xml" => {}
         Tier::Thorough => idxs = (0..total).collect(),
         Tier::Quick => {
             for (fi, _f) in st.files.iter().enumerate() {
